@@ -64,7 +64,7 @@ def go_decode(ex, chars):
         out.append(c); i += 1
     return out
 
-def ob_string_literal(r, tier, seed, items):
+def ob_string_literal(r, tier, seed, items, pattern=False):
     W = e2.fresh_world(LCRATES)
     EX = W.tt.find_adt(['cst', 'nodes', 'Expr'], 'cst') if W.tt.by_name.get('Expr') else None
     cands = [a for a in W.tt.by_name.get('Expr', []) if a.crate == 'cst']
@@ -77,7 +77,7 @@ def ob_string_literal(r, tier, seed, items):
     def token_stub(ex, a): return ms.some(Opaque('token', text=cur['text']))
     cur = {}
     for nm in list(W.methods.get('value', [])):
-        if 'nodes.rs' in nm[1] and nm[2] is not None and nm[2].self_key == 'StrExpr': W.stubs[nm[1]] = token_stub
+        if 'nodes.rs' in nm[1] and nm[2] is not None and nm[2].self_key in ('StrExpr', 'StringPat'): W.stubs[nm[1]] = token_stub
     def ov(f, g):
         if g.endswith('SyntaxToken<MyLang> as ToString>::to_string') or g.endswith('SyntaxToken<parser::syntax::MyLang> as ToString>::to_string') or ('SyntaxToken' in g and g.endswith('::to_string')):
             def m_token_to_string(ex, f_, a): return Str(ex.deref(a[0]).text.chars)
@@ -115,10 +115,19 @@ def ob_string_literal(r, tier, seed, items):
         DI = W.tt.find_adt(['diagnostics', 'Diagnostics'], 'diagnostics')
         ctxv = Agg(LC.key, 0, [Agg(DI.key, 0, [PyVec([])]) if (f[1] and 'resolved_path' in f[1] and f[1]['resolved_path']['path'].endswith('Diagnostics')) else Opaque('ctx.' + str(f[0])) for f in LC.variants[0].fields])
         h = {0: ctxv}
-        res = ex.call('lower::lower_expr_with_args', [Ref(h, 0), node, PyVec([])], 'ast')
-        if res.idx == 0: return desc, 'rejected', None, want
-        e = res.fields[0]
-        if AEX.variants[e.idx].name != 'EString': return desc, 'not-a-string', None, want
+        if pattern:
+            CPT = [a for a in W.tt.by_name.get('Pattern', []) if a.crate == 'cst'][0]; SP = [a for a in W.tt.by_name.get('StringPat', []) if a.crate == 'cst'][0]
+            APT = [a for a in W.tt.by_name.get('Pat', []) if a.crate == 'ast'][0]
+            pnode = Agg(CPT.key, CPT.vindex('StringPat'), [Agg(SP.key, 0, [Opaque('syntaxnode')])])
+            res = ex.call('lower::lower_pat', [Ref(h, 0), pnode], 'ast')
+            if res.idx == 0: return desc, 'rejected', None, want
+            e = res.fields[0]
+            if APT.variants[e.idx].name != 'PString': return desc, 'not-a-string', None, want
+        else:
+            res = ex.call('lower::lower_expr_with_args', [Ref(h, 0), node, PyVec([])], 'ast')
+            if res.idx == 0: return desc, 'rejected', None, want
+            e = res.fields[0]
+            if AEX.variants[e.idx].name != 'EString': return desc, 'not-a-string', None, want
         value = e.fields[0]
         h2 = {0: value}
         lit = ex.call('pprint::go_pprint::escape_go_string', [Ref(h2, 0)], 'compiler')
@@ -150,7 +159,7 @@ def ob_string_literal(r, tier, seed, items):
     for key, (what, desc) in found.items():
         ok_, detail = True, 'values read from the real lower_expr_with_args / escape_go_string MIR'
         if key in ('escape-not-decoded', 'literal-changed') and desc is not None:
-            ok_, detail = replay_string_literal(desc)
+            ok_, detail = replay_string_literal(desc, as_pattern=pattern)
         if key == 'panic' and desc is not None:
             ok_, detail = replay_string_literal(desc, expect_panic=True)
         r.findings.append(Finding(key, what, {'items': desc}, ok_, detail))
@@ -174,7 +183,7 @@ def py_go_decode(lit):
         out.append(ord(c)); i += 1
     return out
 
-def replay_string_literal(desc, expect_panic=False):
+def replay_string_literal(desc, expect_panic=False, as_pattern=False):
     """native: the goml literal built from the items (plain characters as `x`) through the real CLI; the emitted Go literal is decoded and compared"""
     src_lit = ''.join('x' if d == '<char>' else d for d in desc)
     want = []
@@ -184,15 +193,22 @@ def replay_string_literal(desc, expect_panic=False):
         else: want.append(ESC[d[1]])
     d_ = tempfile.mkdtemp(prefix='vf-c11-')
     try:
-        open(os.path.join(d_, 'main.gom'), 'w').write('fn main() -> unit { string_println("%s") }\n' % src_lit)
+        prog = 'fn main() -> unit { string_println("%s") }\n' % src_lit
+        if as_pattern: prog = 'fn f(s: string) -> int32 { match s { "%s" => 1, _ => 2 } }\nfn main() -> unit { () }\n' % src_lit
+        open(os.path.join(d_, 'main.gom'), 'w').write(prog)
         out = subprocess.run([build.compiler_bin(), 'run', '--dump-go', os.path.join(d_, 'main.gom')], capture_output=True, text=True, timeout=60)
     finally: shutil.rmtree(d_, ignore_errors=True)
     if expect_panic:
         pan = [l for l in (out.stdout + out.stderr).splitlines() if 'panicked' in l]
         return bool(pan), 'goml `string_println("%s")`: %s' % (src_lit, pan[:1] if pan else 'no panic')
-    line = [l.strip() for l in out.stdout.splitlines() if 'string_println("' in l and 'func ' not in l]
-    if not line: return False, 'native CLI did not emit the call: %s' % (out.stdout + out.stderr)[-200:]
-    body = line[0][line[0].index('string_println("') + len('string_println("'):line[0].rindex('")')]
+    if as_pattern:
+        line = [l.strip() for l in out.stdout.splitlines() if l.strip().startswith('case "')]
+        if not line: return False, 'native CLI did not emit the case: %s' % (out.stdout + out.stderr)[-200:]
+        body = line[0][len('case "'):line[0].rindex('"')]
+    else:
+        line = [l.strip() for l in out.stdout.splitlines() if 'string_println("' in l and 'func ' not in l]
+        if not line: return False, 'native CLI did not emit the call: %s' % (out.stdout + out.stderr)[-200:]
+        body = line[0][line[0].index('string_println("') + len('string_println("'):line[0].rindex('")')]
     got = py_go_decode(body)
     if got is not None and len(got) == len(want): got = [g if w is not None else None for g, w in zip(got, want)]
     return got != want, 'goml `string_println("%s")` emits Go `%s`, which denotes %s; the source denotes %s' % (src_lit, line[0], got, want)
@@ -200,7 +216,9 @@ def replay_string_literal(desc, expect_panic=False):
 def _string_obs():
     return [Ob('O11.3-string-literal-1', 'string literal fidelity through lowering and Go printing: 1 item', ob_string_literal, ('quick', 'thorough'), 1, dict(items=1)),
             Ob('O11.3-string-literal-2', 'string literal fidelity: 2 items', ob_string_literal, ('quick', 'thorough'), 3, dict(items=2)),
-            Ob('O11.3-string-literal-3', 'string literal fidelity: 3 items', ob_string_literal, ('thorough',), 30, dict(items=3))]
+            Ob('O11.3-string-literal-3', 'string literal fidelity: 3 items', ob_string_literal, ('thorough',), 30, dict(items=3)),
+            Ob('O11.3-string-pattern-1', 'a string literal used as a PATTERN denotes the same characters: 1 item', ob_string_literal, ('quick', 'thorough'), 1, dict(items=1, pattern=True)),
+            Ob('O11.3-string-pattern-2', 'string pattern fidelity: 2 items', ob_string_literal, ('quick', 'thorough'), 3, dict(items=2, pattern=True))]
 _old_obligations = obligations
 def obligations():
     from props import c11_lower
